@@ -203,6 +203,7 @@ def main(ctx, args):
         "the meaning of an expanded tree is given by Model/Core.lean through the (unverified, exercised) reader Model/StageIO.lean::toCoreProg",
         "forms outside the Lean fragment (match, records, arrays, modules, type declarations) are compared on the real compiler only: corpus pairs marked real_only and every shipped source behind a macro-stage prefix against the source as it is",
         "known findings steer the generator: F2, F3, F11, F17 (no `if` inside tuple components), (S1, the block-scope leak, is repaired in /repo e02acb0: programs that bind one name twice are compared with the model like all others)",
+        "known findings steer the generator: F11, F17 (F2 and F3 are repaired: several delay sizes and state inside `if` arms are generated) (no `if` inside tuple components), (S1, the block-scope leak, is repaired in /repo e02acb0: programs that bind one name twice are compared with the model like all others)",
     ]
     known = load_known("C09")
     if not extract(ctx):
